@@ -150,4 +150,139 @@ theorem mul_2expmod_spec (xs : List Nat) (h d : Nat) (hx : Limbs (xs ++ [h])) (h
   · rw [hrv]; linarith
   · rw [hrv]; linarith
 
+/-! ### mpn_div_2expmod_2expp1 -/
+
+theorem snoc2_access (ts : List Nat) (a b : Nat) :
+    (ts ++ [a] ++ [b]).getD ts.length 0 = a ∧ (ts ++ [a] ++ [b]).getD (ts.length + 1) 0 = b ∧
+    (ts ++ [a] ++ [b]).take ts.length = ts := by
+  refine ⟨?_, ?_, ?_⟩
+  · simp [List.getD_eq_getElem?_getD]
+  · simp [List.getD_eq_getElem?_getD]
+  · simp
+
+/-- sub_ddmmss(r1, r0, p1, p0, 0, lo) -/
+theorem sub_dd (p0 p1 lo : Nat) (h0 : p0 < B) (h1 : p1 < B) (hl : lo < B) :
+    ∃ k : Int, ((lsub p0 lo : Nat) : Int) + (B : Int) * (lsub p1 (boolToNat (p0 < lo)) : Nat) =
+      (p0 : Int) + (B : Int) * p1 - lo + (B : Int) * (B : Int) * k := by
+  unfold lsub boolToNat
+  simp only [B_eq] at *
+  by_cases c1 : p0 < lo
+  · by_cases c2 : p1 = 0
+    · refine ⟨1, ?_⟩; simp only [c1, decide_true, ↓reduceIte]; push_cast; omega
+    · refine ⟨0, ?_⟩; simp only [c1, decide_true, ↓reduceIte]; push_cast; omega
+  · refine ⟨0, ?_⟩; simp only [c1, decide_false]; push_cast; omega
+
+theorem fits_div (P v q W : Int) (hP : (B : Int) ≤ P) (hv0 : 0 ≤ v) (hv1 : v < P)
+    (hq1 : -4611686018427387904 ≤ q) (hq2 : q < 4611686018427387904) (hW0 : 0 ≤ W) (hW1 : W < P) :
+    -(P * (B : Int)) ≤ 2 * (v + P * q - W) ∧ 2 * (v + P * q - W) < P * (B : Int) := by
+  rw [BZ_eq] at *
+  have hP0 : (0 : Int) ≤ P := by linarith
+  have h1 : P * (-4611686018427387904) ≤ P * q := mul_le_mul_of_nonneg_left hq1 hP0
+  have h2 : P * q ≤ P * 4611686018427387903 := mul_le_mul_of_nonneg_left (by omega) hP0
+  constructor <;> linarith
+
+theorem div_2expmod_spec (xs : List Nat) (h d : Nat) (hx : Limbs (xs ++ [h])) (hn : 1 ≤ xs.length)
+    (hd1 : 1 ≤ d) (hd : d ≤ 63) :
+    ∃ ys g, div_2expmod (xs ++ [h]) d = ys ++ [g] ∧ ys.length = xs.length ∧ Limbs (ys ++ [g]) ∧
+      rval (ys ++ [g]) * 2 ^ d ≡ rval (xs ++ [h]) [ZMOD pmod xs.length] ∧
+      (sint h / 2 ^ d - 1) * (B : Int) ^ xs.length < rval (ys ++ [g]) ∧
+      rval (ys ++ [g]) < (sint h / 2 ^ d + 1) * (B : Int) ^ xs.length := by
+  have ⟨hxs, hh⟩ := Limbs_snoc.mp hx
+  have hd0 : d ≠ 0 := by omega
+  obtain ⟨m, hm⟩ : ∃ m, xs.length = m + 1 := ⟨xs.length - 1, by omega⟩
+  obtain ⟨x0, rest, hx0⟩ : ∃ x0 rest, xs ++ [h] = x0 :: rest := List.exists_cons_of_length_pos (by simp)
+  have hrl : rest.length = m + 1 := by
+    have := congrArg List.length hx0; simp at this; omega
+  obtain ⟨rv1, rL, rlim, rlen, rdiv, rlo⟩ := rshift_val' x0 rest d (hx0 ▸ hx) hd1 hd
+  rw [← hx0] at rv1 rL rlim rlen rdiv rlo
+  set T := (rshift (xs ++ [h]) d).1 with hT
+  set L := (rshift (xs ++ [h]) d).2 with hL
+  have hTL : rshift (xs ++ [h]) d = (T, L) := rfl
+  simp only [List.length_append, List.length_cons, List.length_nil, hm] at rlen
+  obtain ⟨ts, g, hTs, htsl⟩ := exists_snoc T (m + 1) (by omega)
+  obtain ⟨ts', p0, hts', hts'l⟩ := exists_snoc ts m htsl
+  have hLimT : Limbs (ts' ++ [p0] ++ [g]) := by rw [← hts', ← hTs]; exact rlim
+  have ⟨hLts, hg⟩ := Limbs_snoc.mp hLimT
+  have ⟨hLts', hp0⟩ := Limbs_snoc.mp hLts
+  -- the top limb of the logical shift
+  have hvx : val (xs ++ [h]) = val xs + B ^ (m + 1) * h := by rw [val_snoc, hm]
+  have hvT : val T = val ts + B ^ (m + 1) * g := by rw [hTs, val_snoc, htsl]
+  have hxsl := val_lt xs hxs
+  have htsv := val_lt ts (hts' ▸ hLts)
+  rw [hm] at hxsl; rw [htsl] at htsv
+  have hPpos : 0 < B ^ (m + 1) := Bpow_pos _
+  have hgd : g = h / 2 ^ d := by
+    have e1 : val T / B ^ (m + 1) = g := by
+      rw [hvT, Nat.add_mul_div_left _ _ hPpos, Nat.div_eq_of_lt htsv, Nat.zero_add]
+    have e2 : val (xs ++ [h]) / B ^ (m + 1) = h := by
+      rw [hvx, Nat.add_mul_div_left _ _ hPpos, Nat.div_eq_of_lt hxsl, Nat.zero_add]
+    rw [← e1, rdiv, Nat.div_div_eq_div_mul, Nat.mul_comm, ← Nat.div_div_eq_div_mul, e2]
+  -- unfold the model
+  obtain ⟨sq, q1, q2⟩ := sint_sar h d hh hd1
+  set q := sint h / 2 ^ d with hq
+  set p1 := sar h d with hp1
+  have hp1B : p1 < B := by unfold p1 sar; exact ofInt_lt _
+  obtain ⟨k, hk⟩ := sub_dd p0 p1 L hp0 hp1B rL
+  set r0 := lsub p0 L
+  set r1 := lsub p1 (boolToNat (p0 < L))
+  have hres : div_2expmod (xs ++ [h]) d = ts' ++ [r0] ++ [r1] := by
+    unfold div_2expmod
+    simp only [hd0, ↓reduceIte, hTL, top_snoc, hTs, setTop_snoc]
+    have hl1 : (xs ++ [h]).length - 1 - 1 = ts'.length := by simp [hm, hts'l]
+    have hl2 : (xs ++ [h]).length - 1 = ts'.length + 1 := by simp [hm, hts'l]
+    rw [hl1, hl2, hts']
+    obtain ⟨a1, a2, a3⟩ := snoc2_access ts' p0 p1
+    rw [a1, a2, a3]; simp only [List.append_assoc, List.cons_append, List.nil_append]; rfl
+  have hLimR : Limbs (ts' ++ [r0] ++ [r1]) :=
+    Limbs_snoc.mpr ⟨Limbs_snoc.mpr ⟨hLts', lsub_lt _ _⟩, lsub_lt _ _⟩
+  refine ⟨ts' ++ [r0], r1, hres, by simp [hts'l, hm], hLimR, ?_⟩
+  -- value
+  have hA := shr_signed h d (by omega)
+  rw [← hgd] at hA
+  have hse := sint_eq h
+  have hse1 := sint_eq p1
+  rw [sq] at hse1
+  set neg : Int := (if h < B / 2 then 0 else 1)
+  set neg1 : Int := (if p1 < B / 2 then 0 else 1)
+  have hvts : (val ts : Int) = val ts' + (B : Int) ^ m * p0 := by
+    rw [hts', val_snoc, hts'l]; push_cast; ring
+  have hvr : (val (ts' ++ [r0] ++ [r1]) : Int) =
+      ((val ts : Int) + (B : Int) ^ (m + 1) * q - (B : Int) ^ m * L) + (neg1 + k) * (B : Int) ^ ((ts' ++ [r0]).length + 1) := by
+    rw [val_snoc, val_snoc]; simp only [List.length_append, List.length_cons, List.length_nil, hts'l]
+    push_cast
+    rw [hvts]
+    have e : (B : Int) ^ (m + 0 + 1) = (B : Int) ^ m * B := by rw [Nat.add_zero, pow_succ]
+    rw [e, pow_succ, pow_succ]
+    linear_combination ((B : Int) ^ m) * hk + ((B : Int) ^ m * B) * hse1
+  have hts0 : (0 : Int) ≤ val ts := by positivity
+  have hts1 : (val ts : Int) < (B : Int) ^ (m + 1) := by exact_mod_cast htsv
+  have hL0 : (0 : Int) ≤ L := by positivity
+  have hL1 : (B : Int) ^ m * L < (B : Int) ^ (m + 1) := by
+    rw [pow_succ]; exact mul_lt_mul_of_pos_left (by exact_mod_cast rL) (BZpow_pos m)
+  have hL2 : (0 : Int) ≤ (B : Int) ^ m * L := mul_nonneg (le_of_lt (BZpow_pos m)) hL0
+  have hP := B_le_pow (m + 1) (by omega)
+  have hrv : rval (ts' ++ [r0] ++ [r1]) = (val ts : Int) + (B : Int) ^ (m + 1) * q - (B : Int) ^ m * L := by
+    have hf := fits_div _ _ q _ hP hts0 hts1 q1 q2 hL2 hL1
+    apply rval_of_eq (ts' ++ [r0]) r1 hLimR _ (neg1 + k) hvr
+    · simp only [List.length_append, List.length_cons, List.length_nil, hts'l]
+      rw [pow_succ]; exact hf.1
+    · simp only [List.length_append, List.length_cons, List.length_nil, hts'l]
+      rw [pow_succ]; exact hf.2
+  rw [hrv, hm]
+  refine ⟨?_, by linarith, by linarith⟩
+  -- congruence
+  have hdm := Nat.div_add_mod (val (xs ++ [h])) (2 ^ d)
+  rw [← rdiv, hvT, hvx] at hdm
+  set r := (val xs + B ^ (m + 1) * h) % 2 ^ d with hr
+  have hB2 : (B : Int) = 2 ^ (64 - d) * 2 ^ d := by
+    have := B_split d (by omega); rw [Nat.mul_comm] at this; exact_mod_cast this
+  have rlo'' : L = r * 2 ^ (64 - d) := by rw [rlo, hvx]
+  have rlo' : (L : Int) = r * 2 ^ (64 - d) := by rw [rlo'']; push_cast; ring
+  have hdm' := congrArg (fun z : Nat => (z : Int)) hdm
+  push_cast at hdm'
+  rw [modEq_pmod_iff]; refine ⟨-(r : Int), ?_⟩
+  rw [rval_snoc, hm, rlo']
+  have e : (B : Int) ^ (m + 1) = (B : Int) ^ m * (2 ^ (64 - d) * 2 ^ d) := by rw [pow_succ, ← hB2]
+  linear_combination hdm' + (B : Int) ^ (m + 1) * hse - (2 ^ d * (B : Int) ^ (m + 1)) * hA + (r : Int) * e + ((B : Int) ^ (m + 1) * neg) * hB2
+
 end Mpir.Fft
